@@ -83,7 +83,8 @@ class mysql41(uh.StaticHandler):
 
     @classmethod
     def _norm_hash(cls, hash):
-        return hash.upper()
+        # NOTE: str.upper() maps some non-ascii characters onto ascii ones ("\ufb00" -> "FF")
+        return hash.upper() if hash.isascii() else hash
 
     def _calc_checksum(self, secret):
         # FIXME: no idea if mysql has a policy about handling unicode passwords
